@@ -57,18 +57,23 @@ def r1(ctx):
 @rule("R-C16-2", min_instances=40, title="timeout predicate over all orderings of (last ping, deadline, now, last pong): raise iff a ping is outstanding past its deadline")
 def r2(ctx):
     loc = ctx.index.loc(ctx.index.func(CHECK).node)
-    T = 10
     fails = []
     n = 0
-    for P in (0, 100):
+    grid = [(0, 10), (100, 10)] + ([(100, 0.5), (1e9, 30), (7, 7), (1, 1e6)] if ctx.tier == "thorough" else [])
+    for P, T in grid:
         Q = P + T
-        pts = [P - 5, P, P + 5, Q, Q + 5] if P else [-5, 0, 5, 10, 15]
+        h = T / 2
+        pts = [P - h, P, P + h, Q, Q + h] if P else [-h, 0, h, T, T + h]
+        if ctx.tier == "thorough":
+            e = T / 1000
+            pts += [P - e, P + e, Q - e, Q + e]
         for N, G in itertools.product(pts, pts + [0]):
             st = sock_stubs(extra={"time.time": lambda I, run, a, k, n, N=N: C(float(N))})
             I = Interp(ctx.index, Config(stubs=st))
 
             def closure(run):
                 app = mk_app(I, run, ping_timeout=C(T), last_ping_tm=C(float(P)), last_pong_tm=C(float(G)))
+                run.memo["T"] = T
                 return closure_env(run, app)
 
             outs = I.explore_call(CHECK, lambda run: ([], {}), closure)
@@ -78,7 +83,7 @@ def r2(ctx):
             o = outs[0] if len(outs) == 1 else None
             got = None if o is None else (o.kind == "raise" and o.exc_class == TIMEOUT_EXC)
             ok = o is not None and got == want and (o.kind == "raise" or o.value == TRUE)
-            ctx.ob(f"{CHECK}:P={P}:N={N}:G={G}", ok, "timeout" if want else "no timeout" if ok else "", loc)
+            ctx.ob(f"{CHECK}:P={P}:T={T}:N={N}:G={G}", ok, "timeout" if want else "no timeout" if ok else "", loc)
             if not ok:
                 fails.append((P, N, G, want, o))
     if fails:
@@ -86,7 +91,7 @@ def r2(ctx):
         ctx.obs[-1].msg = ""
     for P, N, G, want, o in fails[:3]:
         ctx.ob(f"{CHECK}:witness:P={P}:N={N}:G={G}", False,
-               f"last ping at {P}, timeout {T} (deadline {P + T}), now {N}, last pong at {G}: check() {'does not raise' if want else 'raises'} "
+               f"last ping at {P}, now {N}, last pong at {G} (timeout as configured in that class): check() {'does not raise' if want else 'raises'} "
                f"but a ping/pong timeout must be reported exactly when a ping is outstanding past its deadline (pong before the ping or after the deadline)", loc)
     # disabled without a timeout
     I = Interp(ctx.index, Config(stubs=sock_stubs(extra={"time.time": lambda I, run, a, k, n: C(1e9)})))
